@@ -139,7 +139,7 @@ func TestWorker(t *testing.T) {
 		if r.Outcome == "" {
 			r.Outcome = "ok"
 		}
-		if r.Outcome == "violation" || r.Outcome == "harness" || prop.OnStderr != nil {
+		if r.Outcome == "violation" || r.Outcome == "harness" || prop.OnStderr != nil || prop.Diff {
 			r.Choices = c.Rec
 		}
 		emit(out, r)
@@ -198,7 +198,42 @@ type workerRun struct {
 // results; if the process dies or is killed by the watchdog the run that was
 // in progress is reported in died and the caller continues after it.
 func spawn(prop, tier string, seed uint64, start, count int, extraEnv []string, timeout time.Duration) workerRun {
-	cmd := exec.Command(os.Args[0], "-test.run=^TestWorker$", "-test.timeout=0")
+	return spawnBin(os.Args[0], prop, tier, seed, start, count, extraEnv, timeout)
+}
+
+// diffTranscripts turns a transcript difference between the two builds into a
+// violation of the run.
+func diffTranscripts(a, b *Result) {
+	if a.Transcript == b.Transcript {
+		return
+	}
+	la, lb := strings.Split(a.Transcript, "\n"), strings.Split(b.Transcript, "\n")
+	i := 0
+	for i < len(la) && i < len(lb) && la[i] == lb[i] {
+		i++
+	}
+	x, y := "<end>", "<end>"
+	if i < len(la) {
+		x = la[i]
+	}
+	if i < len(lb) {
+		y = lb[i]
+	}
+	op := strings.Fields(x + " ? ?")
+	if a.Outcome != "violation" {
+		a.Outcome = "violation"
+		a.Clause = "build-divergence"
+		what := op[1]
+		if i := strings.IndexAny(what, "-0123456789"); i > 0 {
+			what = what[:i]
+		}
+		a.Key = "diverge:" + a.Cell + ":" + op[0] + ":" + what
+	}
+	a.Detail = fmt.Sprintf("the default and the purego build give different transcripts for the same case; first difference at line %d\n default: %s\n purego : %s\n--- default transcript:\n%s--- purego transcript:\n%s", i, x, y, a.Transcript, b.Transcript)
+}
+
+func spawnBin(bin, prop, tier string, seed uint64, start, count int, extraEnv []string, timeout time.Duration) workerRun {
+	cmd := exec.Command(bin, "-test.run=^TestWorker$", "-test.timeout=0")
 	cmd.Env = append(os.Environ(),
 		"VERIF_MODE=worker", "VERIF_PROP="+prop, "VERIF_TIER="+tier,
 		"VERIF_SEED="+strconv.FormatUint(seed, 10),
@@ -401,6 +436,20 @@ func parentMain() int {
 					if prop.OnStderr != nil {
 						prop.OnStderr(wr.stderr, wr.results, func(k string) { a.mu.Lock(); a.probes[k]++; a.mu.Unlock() })
 					}
+					if prop.Diff {
+						other := spawnBin(os.Getenv("VERIF_WORKER_PUREGO"), propID, tier, base, s, n, nil, perRun+time.Duration(n)*2*time.Second)
+						byIdx := map[int]*Result{}
+						for _, o := range other.results {
+							byIdx[o.Index] = o
+						}
+						for _, r := range wr.results {
+							if o := byIdx[r.Index]; o != nil {
+								diffTranscripts(r, o)
+							} else if r.Outcome == "ok" {
+								r.Outcome, r.Detail = "harness", "the purego worker produced no result for this case"
+							}
+						}
+					}
 					done := 0
 					for _, r := range wr.results {
 						a.add(r)
@@ -564,6 +613,13 @@ func runChoices(prop *Prop, tier string, rf *replayFile, trace bool) *Result {
 	wr := runWorker(cmd, 90*time.Second)
 	if prop.OnStderr != nil {
 		prop.OnStderr(wr.stderr, wr.results, func(string) {})
+	}
+	if prop.Diff && len(wr.results) == 1 {
+		cmd2 := exec.Command(os.Getenv("VERIF_WORKER_PUREGO"), "-test.run=^TestWorker$", "-test.timeout=0")
+		cmd2.Env = cmd.Env
+		if o := runWorker(cmd2, 90*time.Second); len(o.results) == 1 {
+			diffTranscripts(wr.results[0], o.results[0])
+		}
 	}
 	if len(wr.results) == 1 {
 		return wr.results[0]
